@@ -37,6 +37,7 @@ type Rec struct {
 	Kind  string         `json:"kind"`
 	Ok    bool           `json:"ok"`
 	N     int            `json:"n"`
+	Fids  []string       `json:"fids"` // flow ids of a flow trace
 }
 
 // Step is one environment action of a schedule.
@@ -86,6 +87,7 @@ type Options struct {
 	Auto    bool                // after the schedule: keep answering pending requests (random order) until completion
 	Perturb int                 // 0 none, 1 random delays at hooks
 	Defs    *schema.Definitions // optional pre-built definitions (round-trip checks)
+	Sub2    bool                // attach a second subscriber and compare the two streams
 }
 
 func DefaultOptions() Options {
@@ -126,6 +128,9 @@ func (r *runner) add(rec Rec) {
 	}
 	if rec.Vars == nil {
 		rec.Vars = map[string]int{}
+	}
+	if rec.Fids == nil {
+		rec.Fids = []string{}
 	}
 	r.log = append(r.log, rec)
 }
@@ -178,7 +183,9 @@ func (r *runner) observe(tr tracing.ITrace) {
 		r.add(Rec{Ev: "newflow", Kind: t.FlowId.String()})
 	case bpmn.FlowTrace:
 		fl := []string{}
+		fids := []string{}
 		for _, s := range t.Flows {
+			fids = append(fids, s.Id().String())
 			id := ""
 			if sf := s.SequenceFlow(); sf != nil {
 				if p, ok := sf.Id(); ok {
@@ -187,7 +194,7 @@ func (r *runner) observe(tr tracing.ITrace) {
 			}
 			fl = append(fl, id)
 		}
-		r.add(Rec{Ev: "flow", Node: nodeId(t.Source), Flows: fl})
+		r.add(Rec{Ev: "flow", Node: nodeId(t.Source), Flows: fl, Fids: fids})
 		r.bump("flow:" + nodeId(t.Source))
 	case bpmn.CompletionTrace:
 		id := nodeId(t.Node)
@@ -257,6 +264,32 @@ func (r *runner) observe(tr tracing.ITrace) {
 	default:
 		r.add(Rec{Ev: "other", Kind: fmt.Sprintf("%T", tr)})
 	}
+}
+
+// traceSig is a compact identity of a trace used to compare two subscribers.
+func traceSig(tr tracing.ITrace) string {
+	tr = tracing.Unwrap(tr)
+	switch t := tr.(type) {
+	case bpmn.NewFlowTrace:
+		return "newflow:" + t.FlowId.String()
+	case bpmn.VisitTrace:
+		return "visit:" + nodeId(t.Node)
+	case bpmn.LeaveTrace:
+		return "leave:" + nodeId(t.Node)
+	case bpmn.TerminationTrace:
+		return "term:" + t.FlowId.String()
+	case bpmn.FlowTrace:
+		s := "flow:" + nodeId(t.Source)
+		for _, f := range t.Flows {
+			s += "," + f.Id().String()
+		}
+		return s
+	case bpmn.CompletionTrace:
+		return "completion:" + nodeId(t.Node)
+	case bpmn.TaskTrace:
+		return "task:" + elemId(t.GetActivity().Element())
+	}
+	return fmt.Sprintf("%T", tr)
 }
 
 func evName(e event.IEvent) (string, string) {
@@ -348,10 +381,29 @@ func Run(runIdx int, p *prog.Program, sch *Schedule, o Options) []Rec {
 	}
 	ch := make(chan tracing.ITrace, 8192)
 	inst.Tracer().SubscribeChannel(ch)
+	var seq1, seq2 []string
+	var seqMu sync.Mutex
+	var ch2 chan tracing.ITrace
+	if o.Sub2 {
+		ch2 = make(chan tracing.ITrace, 8192)
+		inst.Tracer().SubscribeChannel(ch2)
+		go func() {
+			for tr := range ch2 {
+				seqMu.Lock()
+				seq2 = append(seq2, traceSig(tr))
+				seqMu.Unlock()
+			}
+		}()
+	}
 	collectorDone := make(chan struct{})
 	go func() {
 		defer close(collectorDone)
 		for tr := range ch {
+			if o.Sub2 {
+				seqMu.Lock()
+				seq1 = append(seq1, traceSig(tr))
+				seqMu.Unlock()
+			}
 			r.observe(tr)
 		}
 	}()
@@ -420,6 +472,29 @@ func Run(runIdx int, p *prog.Program, sch *Schedule, o Options) []Rec {
 	fv := map[string]int{}
 	for k, it := range inst.Locator().CloneVariables() {
 		fv[k] = toInt(it.Value())
+	}
+	if o.Sub2 {
+		r.mu.Unlock()
+		same := false
+		for i := 0; i < 40 && !same; i++ {
+			seqMu.Lock()
+			same = len(seq1) == len(seq2)
+			if same {
+				for k := range seq1 {
+					if seq1[k] != seq2[k] {
+						same = false
+						i = 40
+						break
+					}
+				}
+			}
+			seqMu.Unlock()
+			if !same {
+				time.Sleep(5 * time.Millisecond)
+			}
+		}
+		r.mu.Lock()
+		r.add(Rec{Ev: "sub2", Ok: same, N: len(seq1)})
 	}
 	r.add(Rec{Ev: "fin", Ok: done, N: pend, Vars: fv})
 	r.closed = true
